@@ -332,3 +332,13 @@ Proof.
   split; [exact V|]. split; [intros W; apply relay_max_keeps_valid; assumption|].
   split; [exact R3|]. split; [exact R4|]. split; [exact R5|]. split; [exact R1|]. split; [exact R6|exact R2].
 Qed.
+
+(* the handler clause in one statement *)
+Lemma handler_clause base arrival field :
+  is_u32 field ->
+  recv_ttl_ns field = field * ms_ns /\
+  exists d, incoming_ctx base arrival (recv_ttl_ns field) = Some d /\
+            d <= arrival + field * ms_ns /\
+            (base = None -> d = arrival + field * ms_ns) /\
+            (forall b, base = Some b -> d = Z.min b (arrival + field * ms_ns)).
+Proof. intros H. split; [exact (recv_ttl_exact field H)|exact (handler_deadline base arrival field H)]. Qed.
